@@ -413,6 +413,17 @@ fn client_ops(sc: &Scenario, sink: &Sink) {
                                 "close" => {
                                     peer = None;
                                 }
+                                "reset" => {
+                                    // the connection is aborted (RST) while the request is outstanding: an I/O error of
+                                    // another kind than the end-of-file of a graceful close
+                                    unsafe {
+                                        use std::os::fd::AsRawFd;
+                                        let l = libc::linger { l_onoff: 1, l_linger: 0 };
+                                        libc::setsockopt(s.as_raw_fd(), libc::SOL_SOCKET, libc::SO_LINGER,
+                                            &l as *const libc::linger as *const c_void, std::mem::size_of::<libc::linger>() as u32);
+                                    }
+                                    peer = None;
+                                }
                                 "badframe" => {
                                     // a reply that violates the framing (foreign protocol id): the connection is given up
                                     let _ = s.write_all(&[b[0], b[1], 0x12, 0x34, 0, 3, st.unit, 3, 0]);
@@ -435,7 +446,7 @@ fn client_ops(sc: &Scenario, sink: &Sink) {
             let ok = wait_for(|| ctx.done.load(Ordering::SeqCst), st.timeout + 2500);
             wait_for(|| ctx.destroys.load(Ordering::SeqCst) > 0, 500);
             sink.emit(json!({"e":"ffi_end","r":i,"completed":ok,"completions":ctx.completions.load(Ordering::SeqCst),"destroys":ctx.destroys.load(Ordering::SeqCst)}));
-            if peer.is_none() && enabled && (st.peer == "close" || st.peer == "badframe") {
+            if peer.is_none() && enabled && (st.peer == "close" || st.peer == "reset" || st.peer == "badframe") {
                 // the channel reconnects after the retry delay
                 listener.set_nonblocking(false).ok();
                 if let Ok((s, _)) = listener.accept() {
